@@ -247,6 +247,21 @@ def build_jobs(ck):
             return fmt(puddle.segment((l + '\n' for l in plines), train_text=(l + '\n' for l in tlines), window=w, by_frequency=True))
         jobs.append(Job('puddle', 'wordseg.algos.puddle', ['-q', '-w', str(w), '-F', '-T', '@train.txt', '@in.txt'],
                         {'in.txt': fmt(plines), 'train.txt': fmt(tlines)}, expect(fp2)))
+        # an utterance that cannot be segmented in the MIDDLE of the text (a blank line, with a train file the
+        # segmentation is lazy): the function raises once it gets there, the command must not have written
+        # the utterances before it
+        if len(plines) >= 2:
+            mid = rng.randint(1, len(plines) - 1)
+            blines = plines[:mid] + [''] + plines[mid:]
+
+            def fp3(blines=blines, tlines=tlines, w=w):
+                return fmt(puddle.segment((l + '\n' for l in blines), train_text=(l + '\n' for l in tlines), window=w))
+            jobs.append(Job('puddle', 'wordseg.algos.puddle', ['-q', '-w', str(w), '-T', '@train.txt', '@in.txt'],
+                            {'in.txt': fmt(blines), 'train.txt': fmt(tlines)}, expect(fp3)))
+
+            def ft3(blines=blines):
+                return fmt(tp.segment((l + '\n' for l in blines)))
+            jobs.append(Job('tp', 'wordseg.algos.tp', ['-q', '@in.txt'], {'in.txt': fmt(blines)}, expect(ft3)))
         # ---- dibs (train file given)
         trees, tags = tagged_corpus(rng)
         test = [' '.join(ph for w_ in t for s in w_ for ph in s) for t in trees]
